@@ -69,7 +69,7 @@ Record slab := mkSlab { sl_rc : N; sl_items : N; sl_pl : pagelist }.
 
 (** ** list access *)
 
-Fixpoint upd {A : Type} (n : nat) (f : A -> A) (l : list A) : list A :=
+Fixpoint upd {A : Type} (n : nat) (f : A -> A) (l : list A) {struct l} : list A :=
   match l with
   | [] => []
   | x :: r => match n with O => f x :: r | S k => x :: upd k f r end
@@ -199,6 +199,13 @@ Fixpoint hremove (h : nat) (hs : list (nat * handle)) : list (nat * handle) :=
   | (k, v) :: r => if (k =? h)%nat then hremove h r else (k, v) :: hremove h r
   end.
 
+(** replaces the value of the handle variable [h] in place *)
+Fixpoint hset (h : nat) (v : handle) (hs : list (nat * handle)) : list (nat * handle) :=
+  match hs with
+  | [] => []
+  | (k, x) :: r => if (k =? h)%nat then (k, v) :: hset h v r else (k, x) :: hset h v r
+  end.
+
 Definition is_ext (k : hkind) : bool := match k with KExt => true | KInt => false end.
 
 Inductive ev := EvDrop (p : N)     (* `Drop` of an item's payload *)
@@ -316,7 +323,7 @@ Definition step (y : sys) (o : op) : outcome :=
     | OExt h =>
         match hfind h hs with
         | Some (mkH a KInt) =>
-            Done (mkSys (Alive (slab_retain sl)) ((h, mkH a KExt) :: hremove h hs) (y_refs y) (y_tok y)) (mkOut RUnit [])
+            Done (mkSys (Alive (slab_retain sl)) (hset h (mkH a KExt) hs) (y_refs y) (y_tok y)) (mkOut RUnit [])
         | _ => Invalid
         end
     | OGet h =>
